@@ -80,8 +80,11 @@ def evalCond (H : Text → Hash) (H0 h0 : Hash) (r : Req Text Hash) (g : Regs σ
     | some t => decide (H t ≠ extSha h0 r)
     | none => decide (H0 ≠ extSha h0 r)
 
-/-- Meaning of a program. `none`: an error message `classify` does not know. `add` with an empty query
-(never reached in the real body) is modelled as no call. -/
+/-- Meaning of a program. `none`: an error message `classify` does not know, or `Cache.Add` reached with an EMPTY
+`rawParams.Query` — that call registers `hash ↦ ""`, a text no client sent with that hash (a request with an empty
+query is a hash-only request) and which no `StepRes` describes: cache values are texts somebody sent. (Until round 5
+this case was "modelled as no call", which made a body that registers the empty text on a lookup miss
+indistinguishable from one that registers nothing.) -/
 def interp (H : Text → Hash) (H0 h0 : Hash) (C : CacheImpl σ Text Hash) (r : Req Text Hash) :
     Prog → Regs σ Text Hash → Option (StepRes σ Text Hash)
   | .ret .pass, g => some ⟨g.state, .run g.query, g.ops⟩
@@ -93,7 +96,7 @@ def interp (H : Text → Hash) (H0 h0 : Hash) (C : CacheImpl σ Text Hash) (r : 
   | .add k, g =>
     match g.query with
     | some t => interp H H0 h0 C r k ⟨C.add g.state (extSha h0 r) t, g.query, g.ok, g.ops ++ [.add (extSha h0 r) t]⟩
-    | none => interp H H0 h0 C r k g
+    | none => none
 
 /-- Run the body on a request: `rawParams.Query` starts as the request's query. -/
 def runProg (H : Text → Hash) (H0 h0 : Hash) (C : CacheImpl σ Text Hash) (p : Prog) (s : σ) (r : Req Text Hash) :
